@@ -24,9 +24,8 @@ pub fn generate_scenario(property: &str, seed: u64, run: u64, thorough: bool) ->
     if rng.chance(0.7) {
         entity_types.push("CDB".to_string());
     }
-    // transactions (own sub-stream: older scenarios keep everything else); the real signer nodes
-    // of C20 would need the transactions importer wired too: not there
-    if property != "C20" && Rng::for_run(seed, &format!("scenario-ctx-{property}"), run).chance(0.3) {
+    // transactions (own sub-stream: older scenarios keep everything else)
+    if Rng::for_run(seed, &format!("scenario-ctx-{property}"), run).chance(0.3) {
         entity_types.push("CTX".to_string());
     }
     let fault_free = rng.chance(0.2);
@@ -260,7 +259,7 @@ impl Driver {
         if self.since_epoch >= self.epoch_len && self.epochs_done < w.sc.epochs && ((all_registered && epoch_certified) || (!fault_free && self.since_epoch >= 3 * self.epoch_len)) {
             choices.push((25, 5));
         }
-        if w.sc.entity_types.iter().any(|t| t == "CDB") {
+        if w.sc.entity_types.iter().any(|t| t == "CDB" || t == "CTX") {
             choices.push((3, 6));
         }
         let w100 = |p: f64| (p * 100.0).round() as u32;
